@@ -550,6 +550,9 @@ class Spectrum:
 
         """
         wave = np.asarray(wave)
+        if wave.dtype.kind == 'f' and wave.dtype.itemsize < 8:
+            # (bin edges are mid-points of the centres: formed in double precision)
+            wave = wave.astype(np.float64)
 
         if wave.size < 2:
             raise ValueError('Spectrum.bin requires a minimum of two wavelengths.\n'
